@@ -60,6 +60,8 @@ type hwire struct {
 	calls  []string
 	reqs   []string
 	swap   swapRule
+	// like faults, for calls that panic
+	panics map[string]map[int]bool
 }
 
 type swapRule struct {
@@ -74,6 +76,10 @@ var errInjected = errors.New("injected fault")
 func (h *hwire) hit(site string) bool {
 	h.counts[site]++
 	h.calls = append(h.calls, site)
+	if h.panics[site][h.counts[site]] || h.panics[site][0] {
+		// the external module panics instead of returning an error
+		panic("injected panic at " + site)
+	}
 	return h.faults[site][h.counts[site]] || h.faults[site][0]
 }
 
@@ -324,6 +330,7 @@ func (h *hwire) recvLine(d *driver, s *appState, f []string) string {
 	obs, bal, sup := s.runRecv(d, h.stack, pkt, true)
 	// faults are one-shot: they apply to the operation that follows them
 	h.faults = map[string]map[int]bool{}
+	h.panics = map[string]map[int]bool{}
 	req, ev := "-", "-"
 	if obs.ack == "ok" {
 		ev = orbiterEventNames(obs.events)
@@ -349,11 +356,22 @@ func (h *hwire) control(f []string) string {
 	case "fault":
 		if f[1] == "clear" {
 			h.faults = map[string]map[int]bool{}
+			h.panics = map[string]map[int]bool{}
 			return "ok"
 		}
 		k, err := strconv.Atoi(f[2])
 		if err != nil {
 			return "bad-op"
+		}
+		if len(f) > 3 && f[3] == "panic" {
+			if h.panics == nil {
+				h.panics = map[string]map[int]bool{}
+			}
+			if h.panics[f[1]] == nil {
+				h.panics[f[1]] = map[int]bool{}
+			}
+			h.panics[f[1]][k] = true
+			return "ok"
 		}
 		if h.faults[f[1]] == nil {
 			h.faults[f[1]] = map[int]bool{}
